@@ -433,6 +433,7 @@ func verifSpecCL(lowered string) primitive.ConsistencyLevel {
 
 // The classification functions it consults.
 //@ func parser.IsQueryIdempotent [C04, C06]
+//@   trusted
 //@   ensures err != nil ==> !idempotent
 //@   modifies nothing
 
